@@ -29,7 +29,11 @@ ROLE_CODE = {"stored": 1, "decoy": 2, "plain": 3, "new": 4}
 
 
 def role_code(r):
-    return 2 if str(r).startswith("decoy") else ROLE_CODE.get(r, 0)
+    """stored 1, plain 3, new 4; every decoy has its own code (10 + its position in the layout)"""
+    r = str(r)
+    if r.startswith("decoy"):
+        return 10 + (int(r[6:]) if len(r) > 5 else 0)
+    return ROLE_CODE.get(r, 0)
 SIGNIFICANT = set("\"'&<>[]()=, {}$@/|*:")
 LETTERS = "abcxyzABZ019_-."
 RICH = list("\"'&<>[]()=, é中{}$@/|*:") + ['"', "'", '"', "'"]   # quotes weighted
@@ -61,6 +65,100 @@ def limited(f, *a, **k):
         return f(*a, **k)
     finally:
         signal.setitimer(signal.ITIMER_REAL, 0)
+
+
+# ------------------------------------------------------------------------------------------ entry points by introspection
+
+ID_PARAMS = {"name", "table_name", "style_name", "display_name", "id", "note_id", "draw_id", "change_id", "idx", "text_id", "title",
+             "name_or_element", "full_path", "keyname", "style", "draw_style", "draw_text_style", "table", "path"}
+EP_PREFIXES = ("get_", "_get_", "delete_", "del_", "remove_", "set_", "add_", "insert_", "append_", "update", "strip_", "has_")
+# entry points found by introspection that are deliberately not driven, and why (first matching pattern)
+EP_EXCUSED = [
+    (r"^Element\.(get|set|del)_attribute(_integer|_string)?\(|^Element\.set_style_attribute\(", "the argument is an attribute name, not the identifier of an object"),
+    (r"^(Container|Document)\.(get|set|del)_part\(|^Container\._get_", "package part paths are keys of the part dictionary (properties C03/C04)"),
+    (r"^Element\._get_element_idx2?\(idx\)", "integer position, not an identifier"),
+    (r"^Element\.(get_frames?|get_draw_groups?)\(title\)", "title= of frames and draw groups is a regular expression by documented contract (svg:title child, matched in Python)"),
+    (r"^Frame\.get_image\(name\)", "ignores its name argument by design (a frame holds one image)"),
+    (r"^(Document|Content|Styles)\.get_style\(display_name\)", "delegates to Element.get_style(display_name=), which is driven"),
+    (r"^Document\.insert_style\(name\)|^Table\.set_named_range\(table_name\)", "the name to store under; the replacement of an existing object of that name is driven through Document.insert_style(style) / Table.set_named_range(name)"),
+    (r"^Document\.(get_cell_style_properties|get_cell_background_color|get_table_displayed|set_table_displayed)\(table\)",
+     "resolves the table through Document._get_table exactly as Document.get_table_style, which is driven"),
+    (r"^(Paragraph\.(set_|insert_)|Style\.set_|Meta\.set_(title|template)|NamedRange\.set_|Row\.set_|Table\.set_(value|values|row_values|column_values)\(|TOC\.set_|Column\.set_|Frame\.set_|TextChange\.set_id|TextChangedRegion\.set_id|Element\.append_named_range)",
+     "stores under the identifier / applies a style name; nothing is looked up by it (Paragraph.insert_reference resolves its name through Element.get_reference_mark, which is driven)"),
+]
+
+
+def introspect_entry_points(o):
+    """every method of an odfdo class whose name starts like a lookup / update and that takes an identifier-like argument"""
+    import inspect, pkgutil, importlib
+    classes = set()
+    for m in pkgutil.iter_modules(o.__path__):
+        if m.name.startswith("scripts"):
+            continue
+        try:
+            mod = importlib.import_module("odfdo." + m.name)
+        except Exception:
+            continue
+        for c in vars(mod).values():
+            if inspect.isclass(c) and c.__module__.startswith("odfdo"):
+                classes.add(c)
+    eps = []
+    for c in sorted(classes, key=lambda c: c.__name__):
+        for n, f in list(vars(c).items()):
+            if n.startswith("__") or not n.startswith(EP_PREFIXES) or isinstance(f, (staticmethod, classmethod, property)) or not callable(f):
+                continue
+            try:
+                sig = inspect.signature(f)
+            except (TypeError, ValueError):
+                continue
+            ps = [p for p in sig.parameters if p in ID_PARAMS]
+            if ps:
+                eps.append((c, n, f, sig, ps))
+    return eps
+
+
+EP_CALLS = {}
+
+
+def install_entry_point_counters(o):
+    """count, per introspected entry point and identifier argument, the calls that passed a string (or a list of
+    strings): 'driven' is measured on the run, not declared"""
+    eps = introspect_entry_points(o)
+    for c, n, f, sig, ps in eps:
+        for pn in ps:
+            EP_CALLS.setdefault("%s.%s(%s)" % (c.__name__, n, pn), 0)
+        if c.__name__ == "Element" and "attribute" in n:
+            continue                      # called on every property access; excused statically
+
+        def make(f=f, sig=sig, ps=ps, cname=c.__name__, n=n):
+            def w(*a, **k):
+                try:
+                    b = sig.bind_partial(*a, **k).arguments
+                    for pn in ps:
+                        v = b.get(pn)
+                        if isinstance(v, str) or hasattr(v, "_Element__element") or (isinstance(v, (list, tuple)) and v and all(isinstance(x, str) for x in v)):
+                            EP_CALLS["%s.%s(%s)" % (cname, n, pn)] += 1
+                except TypeError:
+                    pass
+                return f(*a, **k)
+            w.__name__ = getattr(f, "__name__", n); w.__doc__ = getattr(f, "__doc__", None); w.__wrapped__ = f
+            return w
+        setattr(c, n, make())
+    return eps
+
+
+def classify_entry_points():
+    driven, excused, open_ = [], {}, []
+    for ep, cnt in sorted(EP_CALLS.items()):
+        if cnt:
+            driven.append(ep); continue
+        for pat, why in EP_EXCUSED:
+            if re.search(pat, ep):
+                excused[ep] = why
+                break
+        else:
+            open_.append(ep)
+    return driven, excused, open_
 
 
 # ------------------------------------------------------------------------------------------ query capture
@@ -309,6 +407,50 @@ def build_sites(o):
         lambda h, i, ob: _removed(h.root, lambda: h.del_full_path(i)), host="manifest")
     add("Manifest.add_full_path/existing", "{urn:oasis:names:tc:opendocument:xmlns:manifest:1.0}full-path", None,
         lambda h, i, ob: _changed(h, lambda: h.add_full_path(i, "x/changed")), host="manifest")
+    for shape, cls in (("line", o.LineShape), ("rectangle", o.RectangleShape), ("ellipse", o.EllipseShape), ("connector", o.ConnectorShape)):
+        for arg, att, kw in (("draw_style", "draw:style-name", "style"), ("draw_text_style", "draw:text-style-name", "text_style")):
+            key = "get_draw_%ss/%s" % (shape, arg)
+            if key in [x.key for x in sites]:
+                continue
+            add(key, ck(att), (lambda cls, kw: lambda i, r: cls(draw_id=r, **{kw: i}))(cls, kw),
+                (lambda shape, arg: lambda h, i, ob: getattr(h, "get_draw_%ss" % shape)(**{arg: i}))(shape, arg))
+    def img_styled(i, r):
+        im = o.DrawImage("Pictures/%s.png" % r); node(im).set(ck("text:style-name"), i); return im
+    add("get_images/style", ck("text:style-name"), img_styled, lambda h, i, ob: h.get_images(style=i))
+    add("get_links/title", ck("office:title"), lambda i, r: o.Link("http://x/" + r, title=i), lambda h, i, ob: h.get_links(title=i))
+    # ---- round 3: lookups that filter in Python (no XPath query: the lookup layer alone decides)
+    MN = "{urn:oasis:names:tc:opendocument:xmlns:meta:1.0}name"
+    tname = lambda el: node(el).get(ck("table:name"))
+    add("Table.get_named_ranges/table_name=str", ck("table:name"), lambda i, r: o.Table(i),
+        lambda h, i, ob: ob["plain"].get_named_ranges(table_name=i), host="doc-tables-ranges", heavy=True, main=True)
+    add("Table.get_named_ranges/table_name=[name]", ck("table:name"), lambda i, r: o.Table(i),
+        lambda h, i, ob: ob["plain"].get_named_ranges(table_name=[i]), host="doc-tables-ranges", heavy=True)
+    add("Table.get_named_ranges/table_name=[name,decoy]", ck("table:name"), lambda i, r: o.Table(i),
+        lambda h, i, ob: ob["plain"].get_named_ranges(table_name=[i] + ([tname(ob["decoy"])] if "decoy" in ob else [])),
+        host="doc-tables-ranges", heavy=True, expect=("stored", "decoy"))
+    add("Table.get_named_ranges/table_name=(name,other)", ck("table:name"), lambda i, r: o.Table(i),
+        lambda h, i, ob: ob["plain"].get_named_ranges(table_name=(i, "no such table")), host="doc-tables-ranges", heavy=True)
+    add("Table.name setter/moves its named ranges", ck("table:name"), lambda i, r: o.Table(i),
+        lambda h, i, ob: _changed_attr(h.body, ck("table:cell-range-address"), lambda: setattr(ob["stored"], "name", "Renamed")),
+        host="doc-tables-ranges", heavy=True)
+    add("Document.get_table_style/table", ck("table:name"), lambda i, r: o.Table(i, style="ts-" + r),
+        lambda h, i, ob: h.get_table_style(i), host="doc-tables-styles", heavy=True)
+    add("Document.get_list_style", ck("style:name"), lambda i, r: o.Style("list", name=i),
+        lambda h, i, ob: _list_style(o, h, i),
+        host="doc-styles", heavy=True)
+    add("Document.get_style_properties", ck("style:name"), lambda i, r: _style_with_prop(o, i, r),
+        lambda h, i, ob: (h.get_style_properties("paragraph", i, area="paragraph") or {}).get("fo:margin-left"), host="doc-styles", heavy=True)
+    add("Row.get_cells/style", ck("table:style-name"), lambda i, r: o.Cell(r, style=i), lambda h, i, ob: h.get_cells(style=i), host="row")
+    add("Table.get_cells/style", ck("table:style-name"), lambda i, r: o.Cell(r, style=i), lambda h, i, ob: h.get_cells(style=i, flat=True), host="table-cells")
+    add("Table.get_column_cells/style", ck("table:style-name"), lambda i, r: o.Cell(r, style=i),
+        lambda h, i, ob: [c for c in h.get_column_cells(0, style=i) if c is not None], host="table-column-cells")
+    add("Table.get_rows/style", ck("table:style-name"), lambda i, r: _row(o, i, r), lambda h, i, ob: h.get_rows(style=i), host="table-rows")
+    add("Table.get_columns/style", ck("table:style-name"), lambda i, r: o.Column(style=i), lambda h, i, ob: h.get_columns(style=i), host="table-columns")
+    add("Meta.get_user_defined_metadata_of_name", MN, None,
+        lambda h, i, ob: (h.get_user_defined_metadata_of_name(i) or {}).get("value"), host="meta")
+    add("Meta.set_user_defined_metadata/existing", MN, None,
+        lambda h, i, ob: _changed_text(h, lambda: h.set_user_defined_metadata(i, "changed")), host="meta")
+    add("Meta.get_user_defined_metadata[name]", MN, None, lambda h, i, ob: h.get_user_defined_metadata().get(i), host="meta")
     return sites
 
 
@@ -377,6 +519,41 @@ def _changed(manifest, action):
     return [r for r in before if after.get(r) != before[r]]
 
 
+def _changed_attr(root, attr, action):
+    """roles of the marked nodes whose attribute `attr` changed while `action` ran (lxml walk)"""
+    snap = lambda: [(n.get(MARK), n.get(attr)) for n in node(root).iter() if isinstance(n.tag, str) and n.get(MARK) and n.get(attr) is not None]
+    before = snap(); action(); after = snap()
+    out = []
+    for (r, a), (_, b2) in zip(before, after):
+        if a != b2 and r not in out:
+            out.append(r)
+    return out
+
+
+def _changed_text(meta, action):
+    snap = lambda: [(n.get(MARK), n.text) for n in node(meta.root).iter() if isinstance(n.tag, str) and n.get(MARK)]
+    before = snap(); action(); after = snap()
+    return [r for (r, a), (_, b2) in zip(before, after) if a != b2]
+
+
+def _list_style(o, doc, ident):
+    st = o.Style("paragraph", name="child")
+    st.set_attribute("style:list-style-name", ident)
+    return doc.get_list_style(st)
+
+
+def _style_with_prop(o, ident, role):
+    st = o.Style("paragraph", name=ident)
+    st.set_properties({"fo:margin-left": role}, area="paragraph")
+    return st
+
+
+def _row(o, ident, role):
+    r = o.Row(style=ident)
+    r.append_cell(o.Cell(role))
+    return r
+
+
 def _ref_update(o, host, ident):
     ref = o.Reference(ident, ref_format="text")
     p = o.Paragraph(); p.append(ref); host.append(p)
@@ -442,6 +619,57 @@ def make_host(o, site, objs):
         for role, el in objs:
             mark(el, role); tgt.append(node(el))
         return d
+    if kind in ("doc-tables-ranges", "doc-tables-styles"):
+        d = o.Document("spreadsheet")
+        b = d.body
+        b.clear()
+        for role, el in objs:
+            mark(el, role); b.append(el)
+        if kind == "doc-tables-ranges":
+            ne = E.from_tag("table:named-expressions"); node(b).append(node(ne))
+            for k, (role, el) in enumerate(objs):
+                nr = o.NamedRange("nr_%d" % k, "A1", node(el).get("{urn:oasis:names:tc:opendocument:xmlns:table:1.0}name"))
+                mark(nr, role); node(ne).append(node(nr))
+        else:
+            auto = node(d.content.root).find("{urn:oasis:names:tc:opendocument:xmlns:office:1.0}automatic-styles")
+            for role, el in objs:
+                st = o.Style("table", name="ts-" + role); mark(st, role); auto.append(node(st))
+        return d
+    if kind == "row":
+        h = o.Row()
+        for role, el in objs:
+            mark(el, role); h.append_cell(el)
+        return h
+    if kind in ("table-cells", "table-column-cells", "table-rows", "table-columns"):
+        h = o.Table("T")
+        if kind == "table-cells":
+            r = o.Row()
+            for role, el in objs:
+                mark(el, role); r.append_cell(el)
+            h.append_row(r)
+        elif kind == "table-column-cells":
+            for role, el in objs:
+                mark(el, role); r = o.Row(); r.append_cell(el); h.append_row(r)
+        elif kind == "table-rows":
+            for role, el in objs:
+                mark(el, role); h.append_row(el)
+        else:
+            r = o.Row(width=len(objs)); h.append_row(r)
+            for k, (role, el) in enumerate(objs):
+                mark(el, role); h.set_column(k, el)
+        return h
+    if kind == "meta":
+        d = o.Document("text")
+        m = d.meta
+        body = node(m.get_meta_body())
+        MNS = "urn:oasis:names:tc:opendocument:xmlns:meta:1.0"
+        for child in list(body):
+            if child.tag == "{%s}user-defined" % MNS:
+                body.remove(child)
+        for role, name in objs:
+            n = etree.SubElement(body, "{%s}user-defined" % MNS)
+            n.set("{%s}name" % MNS, name); n.set("{%s}value-type" % MNS, "string"); n.text = "role/" + role; n.set(MARK, role)
+        return m
     if kind == "manifest":
         d = o.Document("text")
         m = d.manifest
@@ -527,12 +755,19 @@ def retag(o, el, tag):
 ABSENT_OK = (KeyError, ValueError)      # "not found" answers of lookups that do not return None
 
 
-def run_case(o, site, ident, decoy, third="plain", mode="present", kind=0, variant=0):
-    """Store, in document order: decoys (one of every kind the site can return) / the identifier (as kind `kind`) /
-    decoys of every kind again / the benign object; then look the identifier up.  mode "absent": the identifier is
-    not stored at all and the lookup must return nothing.  Returns a dict; 'rejected' when the API does not accept
-    the identifier."""
-    out = dict(site=site.key, ident=ident, decoy=decoy, third=third, mode=mode, as_kind=kind, rejected=False, raised=None, found=[], queries=[])
+SAME_KIND_DECOYS = 6      # near-identical identifiers on objects of the target's own kind: three before, three after
+
+
+def run_case(o, site, ident, decoy, third="plain", mode="present", kind=0, variant=0, extras=1):
+    """Store, in document order: decoys / the identifier (as kind `kind`) / decoys / the benign object; then look the
+    identifier up.  Decoys: SAME_KIND_DECOYS near-identical identifiers (substring, prefix, suffix, superstring, other
+    case, other white space, other quote, one character changed) on objects of the site's own kind, and two on every
+    other kind the site's query can return.  mode "absent": the identifier is not stored at all and the lookup must
+    return nothing.  extras: how many of the *decoys'* identifiers are looked up as well, each on a freshly built
+    host: each must return exactly its own object.  Returns a dict; 'rejected' when the API does not accept the
+    identifier."""
+    out = dict(site=site.key, ident=ident, decoy=decoy, third=third, mode=mode, as_kind=kind, rejected=False, raised=None, found=[], queries=[],
+               extra_lookups=[])
     if not ident or not valid_xml_text(ident):
         out["rejected"] = True; out["why"] = "empty or not XML text"; return out
     if mode == "absent" and site.needs_stored:
@@ -540,65 +775,75 @@ def run_case(o, site, ident, decoy, third="plain", mode="present", kind=0, varia
     if kind > len(site.kinds):
         out["rejected"] = True; out["why"] = "no such kind at this site"; return out
     kinds = [None] + list(site.kinds)
-    # identifiers of the decoys: before / after the target, per kind
+    # identifiers of the decoys
+    n_same = SAME_KIND_DECOYS
     dnames, v = [], variant
-    for _ in range(2 * len(kinds)):
+    for _ in range(n_same + 2 * len(site.kinds)):
         d = decoy if not dnames else decoy_of(ident, v)
         tries = 0
-        while (d in dnames or d == ident or d == third) and tries < 8:
+        while (d in dnames or d == ident or d == third) and tries < N_RELATIONS:
             v += 1; tries += 1; d = decoy_of(ident, v)
         if d in dnames or d == ident or d == third:
             d = ident + "x" * (len(dnames) + 1)
         dnames.append(d); v += 1
-    plan = []
-    for k, kt in enumerate(kinds):
-        plan.append(("decoy" if k == 0 else "decoy-b%d" % k, dnames[2 * k], kt))
+    before = [(dnames[t], None) for t in range(0, n_same, 2)] + [(dnames[n_same + 2 * k], kt) for k, kt in enumerate(site.kinds)]
+    after = [(dnames[t], None) for t in range(1, n_same, 2)] + [(dnames[n_same + 2 * k + 1], kt) for k, kt in enumerate(site.kinds)]
+    plan, t = [], 0
+    for name, kt in before:
+        plan.append(("decoy" if t == 0 else "decoy-%d" % t, name, kt)); t += 1
     plan.append(("stored", ident, kinds[kind]))
-    for k, kt in enumerate(kinds):
-        plan.append(("decoy-a%d" % k, dnames[2 * k + 1], kt))
+    for name, kt in after:
+        plan.append(("decoy-%d" % t, name, kt)); t += 1
     plan.append(("plain", third, None))
-    objs, seen_names = [], []
-    for role, name, kt in plan:
-        if name is None:
-            continue
-        if site.make is None:
-            if role == "stored" and mode == "absent":
+
+    def build():
+        """fresh objects and host; returns (host, ob, objs, ident actually stored) or a rejection string"""
+        nonlocal ident
+        objs, seen_names = [], []
+        for role, name, kt in plan:
+            if site.make is None:
+                if role == "stored" and mode == "absent":
+                    continue
+                if role != "stored" and (name == ident or name in seen_names):
+                    continue
+                seen_names.append(name); objs.append((role, name)); continue
+            try:
+                el = limited(site.make, name, role)
+                if kt is not None:
+                    el = retag(o, el, kt)
+            except CallTimeout:
+                raise
+            except Exception as e:
+                if role == "stored":
+                    return "setter: %r" % (e,)
                 continue
-            if role != "stored" and (name == ident or name in seen_names):
-                continue
-            seen_names.append(name); objs.append((role, name)); continue
-        try:
-            el = limited(site.make, name, role)
-            if kt is not None:
-                el = retag(o, el, kt)
-        except CallTimeout:
-            raise
-        except Exception as e:
+            actual = stored_name(site, el)
             if role == "stored":
-                out["rejected"] = True; out["why"] = "setter: %r" % (e,); return out
-            continue
-        actual = stored_name(site, el)
-        if role == "stored":
-            if actual is None:
-                out["rejected"] = True; out["why"] = "identifier not stored"; return out
-            if actual != ident:
-                out["normalised_from"] = ident
-                ident = actual; out["ident"] = actual
-                objs = [(r, e2) for r, e2 in objs if stored_name(site, e2) != ident]
-            if mode == "absent":
-                continue
-        elif actual is None or actual == ident:
-            continue
-        objs.append((role, el))
-    if ident == third:
-        out["rejected"] = True; out["why"] = "normalises to the benign name"; return out
+                if actual is None:
+                    return "identifier not stored"
+                if actual != ident:
+                    out["normalised_from"] = ident
+                    ident = actual; out["ident"] = actual
+                    objs = [(r, e2) for r, e2 in objs if stored_name(site, e2) != ident]
+                if mode == "absent":
+                    continue
+            elif actual is None or actual == ident or any(actual == stored_name(site, e2) for _, e2 in objs):
+                continue          # the setter normalised the decoy onto the target or onto another decoy
+            objs.append((role, el))
+        if ident == third:
+            return "normalises to the benign name"
+        try:
+            host = make_host(o, site, objs)
+        except Exception as e:
+            return "host: %r" % (e,)
+        return host, dict(objs), objs
+
+    b = build()
+    if isinstance(b, str):
+        out["rejected"] = True; out["why"] = b; return out
+    host, ob, objs = b
     out["stored_roles"] = [r for r, _ in objs]
     out["layout"] = [(r, n if isinstance(n, str) else stored_name(site, n), None if isinstance(n, str) else n.tag) for r, n in objs]
-    try:
-        host = make_host(o, site, objs)
-    except Exception as e:
-        out["rejected"] = True; out["why"] = "host: %r" % (e,); return out
-    ob = dict(objs)
     del CAP[:]
     try:
         res = limited(site.look, host, ident, ob)
@@ -612,15 +857,43 @@ def run_case(o, site, ident, decoy, third="plain", mode="present", kind=0, varia
             out["raised"] = "%s: %s" % (type(e).__name__, str(e)[:200])
     out["queries"] = dedupe(CAP)
     del CAP[:]
+    # every other stored identifier must find exactly its own object as well
+    if extras and mode == "present" and site.expect == ["stored"]:
+        cands = [(r, n) for r, n, _ in out["layout"] if r.startswith("decoy")]
+        if cands:
+            start = variant % len(cands)
+            for r, n in (cands[start:] + cands[:start])[:extras]:
+                b2 = build()
+                if isinstance(b2, str):
+                    break
+                host2, ob2, _ = b2
+                if r not in ob2:
+                    continue
+                ob2 = dict(ob2, stored=ob2[r])
+                rec = dict(role=r, ident=n, found=[], raised=None)
+                try:
+                    rec["found"] = roles(limited(site.look, host2, n, ob2))
+                except CallTimeout as e:
+                    rec["raised"] = repr(e)
+                except Exception as e:
+                    rec["raised"] = "%s: %s" % (type(e).__name__, str(e)[:200])
+                out["extra_lookups"].append(rec)
+        del CAP[:]
     return out
 
 
 # ------------------------------------------------------------------------------------------ identifiers
 
+N_RELATIONS = 12
+
+
 def decoy_of(ident, variant):
-    """a near-identical identifier (deterministic in (ident, variant))"""
+    """a near-identical identifier (deterministic in (ident, variant)): other quote kind / prefix / superstring /
+    suffix / one character changed / other case / leading blank / trailing blank / doubled inner blank or " 2" appended /
+    inner substring / superstring at the front / tab for blank or blank inserted"""
     swap = {'"': "'", "'": '"'}
-    k = variant % 5
+    k = variant % N_RELATIONS
+    d = None
     if k == 0 and any(c in swap for c in ident):
         d = "".join(swap.get(c, c) for c in ident)
     elif k == 1 and len(ident) > 1:
@@ -629,10 +902,24 @@ def decoy_of(ident, variant):
         d = ident + ident[-1:]
     elif k == 3 and len(ident) > 1:
         d = ident[1:]
-    else:
+    elif k == 5 and ident.swapcase() != ident:
+        d = ident.swapcase()
+    elif k == 6:
+        d = " " + ident
+    elif k == 7:
+        d = ident + " "
+    elif k == 8:
+        d = ident.replace(" ", "  ", 1) if " " in ident else ident + " 2"
+    elif k == 9 and len(ident) > 2:
+        d = ident[1:-1]
+    elif k == 10:
+        d = "x" + ident
+    elif k == 11:
+        d = ident.replace(" ", "_", 1) if " " in ident else ident[:len(ident) // 2] + " " + ident[len(ident) // 2:]
+    if d is None:
         j = variant % max(1, len(ident))
         d = ident[:j] + ("y" if ident[j:j + 1] != "y" else "z") + ident[j + 1:]
-    if d == ident or not d or d == "plain":
+    if d == ident or not d.strip() or d == "plain":
         d = ident + "x"
     return d
 
@@ -643,7 +930,7 @@ EDGE = ['"', "'", '""', "''", '"\'', '\'"', '"\'"', '\'"\'', '"abc', 'abc"', "'a
         '"] | //*[@x="', "'] | //*[@x='", '"]|//*["', 'a" or "1"="1', "a' or '1'='1", '") or ("', "') or ('", 'a"][1', "a'][1",
         'plain"', "plain'", '"plain', 'pla"in', "pla'in\"", 'a&b', 'a<b', 'a>b', 'a&amp;b', 'a&quot;b', '&#34;', 'a]b', 'a[b', 'a]]>b',
         'a(b)', 'a=b', 'a,b', 'a b', 'a  b', 'é', '中"文', "中'文\"", 'a{b}', '{$x}', '$v', '@a', 'a/b', '//', 'a|b', 'a*', 'a:b', '::',
-        'text()', 'a"b"c\'d\'e', '\'"\'"', '"a"', "'a'", '"a\'b"', 'a\\"b', "a\\'b\"", 'Tab le', 'x="y"', "x='y'"]
+        'text()', 'a"b"c\'d\'e', '\'"\'"', '"a"', "'a'", '"a\'b"', 'a\\"b', "a\\'b\"", 'Tab le', 'x="y"', "x='y'", 'true', 'false', 'True', 'R&D net', 'Sheet1', 'Table 1 (2024)', 'a b c']
 
 
 def gen_idents(rng, n_random, n_long=2):
@@ -665,6 +952,8 @@ def gen_idents(rng, n_random, n_long=2):
 
 
 def ident_class(s):
+    if s in ("true", "false"):
+        return "boolean-word-identifier"
     dq, sq = '"' in s, "'" in s
     if dq and sq:
         return "both-quote-kinds-in-value"
@@ -737,13 +1026,25 @@ Fixpoint fid (v : str) (qs bs : list str) : bool :=
   end.
 Fixpoint ns_eqb (a b : list N) : bool :=
   match a, b with [], [] => true | x :: a', y :: b' => (x =? y) && ns_eqb a' b' | _, _ => false end.
-(* case = (identifier, queries built, benign queries of the site, roles found, roles expected, raised) *)
-Definition chk (c : str * list str * list str * list N * list N * bool) : nat :=
-  let '(v, qs, bs, found, expected, raised) := c in
+(* the look-up of another stored identifier (a decoy's): (roles found, the role looked up, raised): must be exactly its own object *)
+Fixpoint chk_extras (l : list (list N * N * bool)) : nat :=
+  match l with
+  | [] => 0%nat
+  | (found, r, raised) :: l' =>
+      if existsb (fun x => negb (x =? r)) found then 5%nat
+      else if raised || negb (ns_eqb found [r]) then 4%nat
+      else chk_extras l'
+  end.
+(* case = (identifier, queries built, benign queries of the site, roles found, roles expected, raised, look-ups of the decoys' identifiers) *)
+Definition chk (c : str * list str * list str * list N * list N * bool * list (list N * N * bool)) : nat :=
+  let '(v, qs, bs, found, expected, raised, extras) := c in
   match chk_qs v qs bs raised with
   | O => if existsb (fun r => negb (existsb (N.eqb r) expected)) found then 5%nat
          else if raised || negb (ns_eqb found expected) then 4%nat
-         else if fid v qs bs then 0%nat else 9%nat
+         else match chk_extras extras with
+              | O => if fid v qs bs then 0%nat else 9%nat
+              | k => k
+              end
   | k => k
   end.
 (* direct call of make_xpath_query(prefix, **{attribute: identifier}):  (prefix, attribute, identifier, query).
@@ -781,15 +1082,18 @@ Definition chk_xml (c : str * str * str * bool) : nat :=
 def coq_case(res, site):
     found = "([" + ";".join(str(role_code(r)) for r in res["found"]) + "] : list N)"
     expect = expected_roles(site, res)
-    expected = "([" + ";".join(str(ROLE_CODE[r]) for r in expect) + "] : list N)"
-    return "(%s, ([%s] : list str), B%s%d, %s, %s, %s)" % (cs(res["ident"]), ";".join(cs(q) for q in res["queries"]),
-                                           "A" if res.get("mode") == "absent" else "", site.index, found, expected, "true" if res["raised"] else "false")
+    expected = "([" + ";".join(str(role_code(r)) for r in expect) + "] : list N)"
+    extra = ";".join("(([%s] : list N), %d, %s)" % (";".join(str(role_code(r)) for r in x["found"]), role_code(x["role"]), "true" if x["raised"] else "false")
+                     for x in res.get("extra_lookups", []))
+    return "(%s, ([%s] : list str), B%s%d, %s, %s, %s, ([%s] : list (list N * N * bool)))" % (
+        cs(res["ident"]), ";".join(cs(q) for q in res["queries"]), "A" if res.get("mode") == "absent" else "", site.index, found, expected,
+        "true" if res["raised"] else "false", extra)
 
 
 def expected_roles(site, res):
     if res.get("mode") == "absent":
-        return []
-    return [r for r in site.expect if r in res.get("stored_roles", site.expect)]
+        return [r for r in res.get("stored_roles", []) if r in site.expect and r != "stored"]
+    return [r for r in res.get("stored_roles", site.expect) if r in site.expect]       # in document order
 
 
 def site_defs(sites):
@@ -866,7 +1170,8 @@ def evaluate(o, sites, work):
     for w in work:
         if w["kind"] == "lookup":
             site = by_key[w["site"]]
-            res = run_case(o, site, w["ident"], w.get("decoy"), mode=w.get("mode", "present"), kind=w.get("as_kind", 0), variant=w.get("variant", 0))
+            res = run_case(o, site, w["ident"], w.get("decoy"), mode=w.get("mode", "present"), kind=w.get("as_kind", 0), variant=w.get("variant", 0),
+                           extras=w.get("extras", 1))
             res["kind"] = "lookup"
             recs.append((w, res))
             if not res["rejected"]:
@@ -900,6 +1205,8 @@ def evaluate(o, sites, work):
                 code = 5
             elif rec["raised"] or rec["found"] != exp:
                 code = 4
+            elif any(x["raised"] or x["found"] != [x["role"]] for x in rec.get("extra_lookups", [])):
+                code = 5
         if rec.get("kind") == "pred" and rec.get("raised"):
             code = 4
         out.append((w, rec, code))
@@ -935,7 +1242,7 @@ def shrink(o, sites, w, code, budget_rounds=8):
         nxt = None
         for cw, rec, k in res:
             if k not in (0, 9) and not rec.get("rejected"):
-                nxt = dict(cw, ident=rec["ident"]); break
+                nxt = dict(cw); break          # keep the identifier as given (the setter may normalise it; the decoys derive from the given one)
         if nxt is None:
             break
         cur = nxt
@@ -947,6 +1254,7 @@ def run(tier, seed, replay=None):
     o = common.use_repo()
     import odfdo.reference, odfdo.tracked_changes  # noqa
     install_capture()
+    install_entry_point_counters(o)
     proofs = common.build_proofs("C14")
     sites = build_sites(o)
     for k, s in enumerate(sites):
@@ -957,17 +1265,17 @@ def run(tier, seed, replay=None):
     # kinds of element its identifier query can return are read off those queries, then the benign runs are redone
     # with decoys of every kind; the same with the identifier not stored
     for s in sites:
-        res = run_case(o, s, "plain", "plaim", third="other")
+        res = run_case(o, s, "plain", "plaim", third="other", extras=0)
         s.kinds = derive_kinds(o, s, res.get("queries") or [])
         for kind in range(len(s.kinds), -1, -1):
-            res = run_case(o, s, "plain", "plaim", third="other", kind=kind)
+            res = run_case(o, s, "plain", "plaim", third="other", kind=kind, extras=0)
             exp = expected_roles(s, res)
             if res["rejected"] or res["raised"] or res["found"] != exp:
                 errors.append("benign lookup fails at site %s (stored as kind %d of %r): %r" % (s.key, kind, s.kinds, res))
         s.benign = res.get("queries") or []
         if not s.needs_stored:
-            ra = run_case(o, s, "plain", "plaim", third="other", mode="absent")
-            if ra["rejected"] or ra["raised"] or ra["found"]:
+            ra = run_case(o, s, "plain", "plaim", third="other", mode="absent", extras=0)
+            if ra["rejected"] or ra["raised"] or ra["found"] != expected_roles(s, ra):
                 errors.append("benign lookup of an identifier that is not stored fails at site %s: %r" % (s.key, ra))
             s.benign_absent = ra.get("queries") or []
     corpus = []
@@ -990,22 +1298,24 @@ def run(tier, seed, replay=None):
         shorter = [i for i in pool[len(EDGE):] if len(i) < 40]
         for s in sites:
             if s.heavy:
-                ids = EDGE[::3] + rng.sample(shorter, 6 if quick else 40)
+                ids = EDGE[s.index % 3::3] + rng.sample(shorter, 6 if quick else 25)
             elif s.main:
                 ids = EDGE + rng.sample(pool[len(EDGE):], 25 if quick else 350)
             else:
-                ids = (EDGE[s.index % 3::3] + rng.sample(shorter, 8)) if quick else (EDGE + rng.sample(shorter, 200))
+                ids = (EDGE[s.index % 4::4] + rng.sample(shorter, 6)) if quick else (EDGE + rng.sample(shorter, 200))
             if s.main and (not quick or s.key in ("get_table/name", "get_bookmark", "Manifest.get_media_type", "get_reference_mark/single",
                                                    "ReferenceMarkStart.referenced_text", "get_between/bookmarks")):
                 ids = small + ids; exhaustive_n += len(small)
-            for i in ids:
+            ids = ["true", "false"] + [i for i in ids if i not in ("true", "false")]     # the boolean words go through every site
+            for n_i, i in enumerate(ids):
                 v = rng.randrange(1000)
-                work.append(dict(kind="lookup", site=s.key, ident=i, decoy=decoy_of(i, v), variant=v))
+                ex = (2 if not s.heavy else 1) if not quick else (0 if (s.heavy and not s.main) else (1 if n_i % 3 == 0 or s.main else 0))
+                work.append(dict(kind="lookup", site=s.key, ident=i, decoy=decoy_of(i, v), variant=v, extras=ex))
             # the identifier stored as each other kind of element the site's query can return
             for kk in range(1, len(s.kinds) + 1):
                 for i in (ids[::2] if quick else ids):
                     v = rng.randrange(1000)
-                    work.append(dict(kind="lookup", site=s.key, ident=i, decoy=decoy_of(i, v), variant=v, as_kind=kk))
+                    work.append(dict(kind="lookup", site=s.key, ident=i, decoy=decoy_of(i, v), variant=v, as_kind=kk, extras=0 if quick else 1))
             # the identifier not stored at all: the lookup must return nothing
             if not s.needs_stored:
                 for i in ["absent"] + (ids[s.index % 5::5] if quick else ids[s.index % 3::3]):
@@ -1041,7 +1351,7 @@ def run(tier, seed, replay=None):
         elif code:
             failing.append((w, rec, code))
     # the lookup layer on its own (whatever the query layer said): wrong object / nothing / exception
-    lookup_layer = {"wrong object returned": 0, "stored object not returned or exception": 0}
+    lookup_layer = {"wrong object returned": 0, "stored object not returned or exception": 0, "a decoy's own identifier did not find exactly the decoy": 0}
     for w, rec, code in results:
         if rec.get("kind") == "lookup" and not rec.get("rejected"):
             exp = expected_roles(by_key[rec["site"]], rec)
@@ -1049,6 +1359,12 @@ def run(tier, seed, replay=None):
                 lookup_layer["wrong object returned"] += 1; rec["lookup_layer"] = "an object with another identifier was returned"
             elif rec["raised"] or rec["found"] != exp:
                 lookup_layer["stored object not returned or exception"] += 1; rec["lookup_layer"] = "the stored object was not returned"
+            else:
+                for x in rec.get("extra_lookups", []):
+                    if x["raised"] or x["found"] != [x["role"]]:
+                        lookup_layer["a decoy's own identifier did not find exactly the decoy"] += 1
+                        rec["lookup_layer"] = "looking up the decoy %r (%s) returned %r %s" % (x["ident"], x["role"], x["found"], x["raised"] or "")
+                        break
     for d in lexer_disagree[:3]:
         errors.append("specification reader and libxml2 disagree on %r" % (d,))
     known = {e["key"]: e for e in common.known_findings(PROP)}
@@ -1070,14 +1386,20 @@ def run(tier, seed, replay=None):
         if n_reported >= 3 and not replay:
             continue
         if not replay and len(rec["ident"]) > 1:
-            w2 = shrink(o, sites, dict(w, ident=rec["ident"]), code, budget_rounds=4 if n_reported else 8)
+            w2 = shrink(o, sites, dict(w), code, budget_rounds=4 if n_reported else 8)
             r2, _ = evaluate(o, sites, [w2])
             if r2 and r2[0][2] not in (0, 9) and not r2[0][1].get("rejected") and key_of(r2[0][1]) == key:
                 w, rec, code = r2[0]
+        if rec.get("kind") == "lookup" and "lookup_layer" not in rec:
+            exp = expected_roles(by_key[rec["site"]], rec)
+            rec["lookup_layer"] = ("an object with another identifier was returned" if any(r not in exp for r in rec["found"]) else
+                                   "the stored object was not returned" if (rec["raised"] or rec["found"] != exp) else
+                                   "a decoy's own identifier did not find exactly the decoy" if any(x["raised"] or x["found"] != [x["role"]] for x in rec.get("extra_lookups", [])) else "right object")
         payload = dict(layer=LAYER.get(code, str(code)), code=code, known_finding_key=None, key=key,
-                       case=dict(w, ident=rec["ident"]), identifier_codepoints=[ord(c) for c in rec["ident"]],
+                       case=dict(w), identifier_stored=rec["ident"], identifier_codepoints=[ord(c) for c in rec["ident"]],
                        impl=dict(queries=rec.get("queries") or rec.get("query"), found=rec.get("found"), raised=rec.get("raised"),
                                  stored_roles=rec.get("stored_roles"), layout=rec.get("layout"), lookup_layer=rec.get("lookup_layer", "right object"),
+                                 extra_lookups=rec.get("extra_lookups"), absent_answer=rec.get("absent_answer"),
                                  got=rec.get("got"), raw=rec.get("raw")),
                        benign_queries=by_key[rec["site"]].benign if rec["site"] in by_key else None,
                        other_failing_keys=len(groups), cases_failing_with_this_key=len(groups[key]))
@@ -1102,6 +1424,9 @@ def run(tier, seed, replay=None):
             samples.append(dict(site=rec["site"], identifier=rec["ident"], decoy=rec.get("decoy"), queries=rec["queries"], found=rec["found"], code=code))
     if not samples:
         samples = [dict(site=rec["site"], identifier=rec["ident"], code=code) for w, rec, code in done[:3]]
+    ep_driven, ep_excused, ep_open = classify_entry_points()
+    if replay:
+        ep_open = []
     coverage = dict(
         trusted_base=["libxml2's XPath 1.0 tokenizer reads string literals as XPathLit.lex does (a quote opens a literal that ends at the next identical quote; no escapes); "
                       "validated on this run: the literal written by make_xpath_query for every generated identifier is evaluated by lxml and compared with the verdict of the Coq reader",
@@ -1113,12 +1438,17 @@ def run(tier, seed, replay=None):
         rule="identifiers = fixed edge list (%d shapes: only quotes, both kinds, quote first/last, many quotes, concat( inside, injection shapes, XML specials, non-ASCII) + random strings over "
              "%d significant symbols and letters/digits (length 1-12, a few 60-200) + words with quotes inserted, all from one random.Random(seed); all strings of length <= %d over {a,\",',space,]} "
              "at the main sites and through make_xpath_query; every (site, identifier) stores identifier + near-identical decoy + 'plain' and looks the identifier up. "
-             "non-trivial = identifier contains an XPath/XML-significant character; distinct = distinct (site, identifier actually stored)" % (len(EDGE), len(set(RICH)), 3 if tier == "quick" else 4),
+             "decoys: near-identical in the substring / prefix / suffix / superstring / case / white-space / quote sense on objects of the same kind (six per case) and of every other kind the query can return, before and after the target; modes: stored / stored as another kind / not stored; the decoys' own identifiers are looked up too. "
+             "non-trivial = identifier contains an XPath/XML-significant character; distinct = distinct (site, identifier actually stored, mode, kind)" % (len(EDGE), len(set(RICH)), 3 if tier == "quick" else 4),
         samples=samples, sites=len(sites) + 3, cases_per_site=hist_site, codes={str(k): v for k, v in sorted(hist_code.items())},
+        entry_points=dict(found_by_introspection=len(EP_CALLS), driven=ep_driven, not_driven_with_reason=ep_excused, not_driven_unclassified=ep_open),
+        extra_lookups_of_decoy_identifiers=sum(len(rec.get("extra_lookups", [])) for w, rec, code in done),
         lookup_layer_failures=lookup_layer, lookup_modes=modes, kinds_per_site={x.key: x.kinds for x in sites if x.kinds}, rejected_by_setter=rejected, fidelity_divergences=fidelity, lookups_without_captured_query=no_query,
         reader_vs_libxml2_disagreements=len(lexer_disagree), corpus_cases=len(corpus), failing_keys=sorted(groups),
         implementation_wall_s=round(TIMES.get("impl", 0), 1), coq_evaluation_wall_s=round(TIMES.get("coq", 0), 1),
         exhaustive=False)
+    if ep_open:
+        print("NOTE: %d name-taking entry point(s) found by introspection are neither driven nor classified: %s" % (len(ep_open), ", ".join(ep_open[:8])))
     if fidelity:
         print("NOTE: %d case(s) where the query text differs from the model's text but denotes the same string (fidelity)" % fidelity)
     evf = common.ROOT / "evidence" / ("%s.json" % PROP)
